@@ -1026,6 +1026,7 @@ def _token_switches(F, body, du):
     # a second test of the same token that is reached only on a not-a-word edge of an earlier one (`if let Token(_) = t.id {..; continue}
     # match t.id {..}`) has no feasible word edge
     producers = {b for b, t in Q.find_calls(body, TOKEN_PRODUCERS)}
+    dead_else = _dead_else_edges(F, body, du)
     keep = []
     for u, labels, src, pl in out:
         dead = False
@@ -1033,7 +1034,7 @@ def _token_switches(F, body, du):
             if u2 == u or pl2 != pl or not body.dominates(u2, u):
                 continue
             word_edges = {tgt for tgt, labs in labels2.items() if ('variant', 'Token') in labs}
-            if word_edges and all(u not in body.reachable(tgt, removed=producers) for tgt in word_edges):
+            if word_edges and all(u not in body.reachable(tgt, removed=producers, removed_edges=dead_else) for tgt in word_edges):
                 dead = True
         if not dead:
             keep.append((u, labels, src))
